@@ -137,6 +137,20 @@ def run(ctx):
                                             json.dumps(f.describe())[:700]),
                           {"meta": m, "events": f.execution, "detail": f.describe()},
                           key=("key-print-parameters" if (nxt.get("e") == "Key" and _print_only(f.execution, nxt)) else None))
+    if not ctx.violations:
+        cands = [executions[i] for i in plain if sum(1 for ev in executions[i] if ev.get("e") == "Key") >= 2]
+        if cands:
+            def dup_key(ex):
+                ks = [ev for ev in ex if ev.get("e") == "Key"]
+                ks[1]["k0"], ks[1]["k1"], ks[1]["k2"] = ks[0]["k0"], ks[0]["k1"], ks[0]["k2"]
+                return ex
+
+            def bad_txt(ex):
+                ks = [ev for ev in ex if ev.get("e") == "Key"]
+                ks[0]["txt"] = ks[0]["txt"].replace("(", "(1")
+                return ex
+            ptgrun.corruption_selftest(ctx, "PTG", "KeyTrace", "KeyTrace.cfg", cands[0], dup_key, "two instances with the same key")
+            ptgrun.corruption_selftest(ctx, "PTG", "KeyTrace", "KeyTrace.cfg", cands[0], bad_txt, "printed key names another value")
     ctx.assume("uniqueness is demanded among the instances of one task class of one taskpool")
 
 
